@@ -309,3 +309,27 @@ package index
 //@   ensures result == 1 + old(rc(c.data, lineOffset, offset))
 //@   ensures okColState(c) && c.data == old(c.data)
 //@   assigns c.lastLineOffset, c.lastOffset, c.lastRuneCount
+
+// ---------------------------------------------------------------------------
+// C35: effects of the shard-merging entry points (assumed; used by the
+// contracts of cmd/zoekt-merge-index). A returned error sets the ghost flag
+// effectFailed (declared with the os contracts).
+// ---------------------------------------------------------------------------
+
+//@ func index.NewIndexFile
+//@   trusted
+//@   ensures result1 != nil ==> effectFailed
+//@   ensures result1 == nil ==> effectFailed == old(effectFailed)
+//@   assigns effectFailed
+
+//@ func index.Merge
+//@   trusted
+//@   ensures result2 != nil ==> effectFailed
+//@   ensures result2 == nil ==> effectFailed == old(effectFailed)
+//@   assigns effectFailed
+
+//@ func index.IndexFilePaths
+//@   trusted
+//@   ensures result1 != nil ==> effectFailed
+//@   ensures result1 == nil ==> effectFailed == old(effectFailed)
+//@   assigns effectFailed
